@@ -12,6 +12,8 @@ is identified by the *parameter of the callee it reaches* (names from the callee
   fmax, R_bend   of makeImpedance (both calls must agree)
   t_sync, f_rev  of HDF5File;  time  = second argument of HDF5File::append(ps, t, at) inside/after the loop
   sinusoidal RF: revolutionpart, V_RF, f_RF, V0 of the sinusoidal constructors
+  qmin, qmax, pmin, pmax   of the PhaseSpace constructor that takes the axis extents (and of makePSFromHDF5 / makePSFromTXT,
+                 which must receive the same four expressions); axis_steps = first argument of PhaseSpace::setSize
 Everything is inlined down to the leaves: options (O_<getter>), physical constants (C_<name>), program state
 (S_<local>); conditions become the abstract predicates of Model/ScalingOps.v (o_lt, o_is0 ...), sqrt/sign/ceil the
 abstract functions o_sqrt ...; pow with a small literal exponent is a product.  Conversions between arithmetic types are
@@ -56,6 +58,8 @@ def translate():
         Q["sinrf_" + nm] = R["sinrf_" + nm]
     if "dynrf_revolutionpart" in R:
         Q["dynrf_revolutionpart"] = R["dynrf_revolutionpart"]
+    for nm in ("qmin", "qmax", "pmin", "pmax", "steps"):
+        Q[("axis_" if nm == "steps" else "") + nm] = R["axis_" + nm]
     em = sl.EmitK()
     defs = []
     for nm, e in Q.items():
